@@ -31,7 +31,7 @@ class SpecC01(e1_driver.Spec):
         f = r.get('faults') or {}
         p = r.get('probes') or {}
         fired = sum(f.get(k, 0) for k in ('stop_resume', 'kill', 'slice',
-                                         'timeout_slice'))
+                                         'timeout_slice', 'kill_in_write'))
         return fired > 0 and p.get('transfers_applied', 0) > 0
 
     def monitor_stats(self, m):
